@@ -53,6 +53,9 @@ DOF_W = ["1/4", "1/2", "1", "2", "3", "3/2"]
 # generators
 # ----------------------------------------------------------------------------------------------------------
 def gen_sub(rng, budget):
+    if rng.random() < 0.15:   # unit axes: sub-domains of size 1 with shapes (1,) and (1, 1)
+        return rng.choice([["RG", [1], ["1/2"], False], ["RG", [1, 1], ["1/2", "3/2"], False], ["U", [1]], ["U", [1, 1]],
+                           ["DOF", ["3/2"]], ["GL", 1, 1], ["PSLM", 0], ["LM", 0], ["PS", ["RG", [1], ["2"], True]]]), 1
     for _ in range(50):
         t = rng.choice(["RG", "RG", "U", "U", "PS", "PS", "DOF", "DOF", "GL", "HP", "LM", "PSLM"])
         if t == "RG":
@@ -91,7 +94,7 @@ def gen_sub(rng, budget):
 
 def gen_dom(rng, nsub=None, budget=48):
     if nsub is None:
-        nsub = rng.choice([0, 1, 1, 2, 2, 2, 3, 3])
+        nsub = rng.choice([0, 1, 1, 2, 2, 2, 3, 3, 3])
     rec, left = [], budget
     for _ in range(nsub):
         r, size = gen_sub(rng, max(1, left))
@@ -163,6 +166,10 @@ def gen_case(rng, kind="field"):
     # a different domain: same shape where possible (only the distances / kind differ), else any other
     other = mutate_dom(rng, rec)
     fields.append(dict(gen_data(rng, dom_size(other), dt, mode), dom=1))
+    if rng.random() < 0.25:          # 4-byte dtypes (int32 / float32 / complex64); field 1 sometimes stays 8-byte
+        for k, fd in enumerate(fields):
+            if k != 1 or rng.random() < 0.5:
+                fd["p"] = 4
     case = {"doms": [rec, other], "fields": fields, "mfields": [], "ops": []}
     ops = case["ops"]
     for sub in L.subsets(n):
@@ -304,6 +311,7 @@ def gen_mcase(rng):
         else:
             doms.append(gen_dom(rng, budget=12))
     sizes = [dom_size(r) for r in doms]
+    lowp = rng.random() < 0.25
     mf = []
     for which in range(4):  # a, b: data; u: units; e: exponents
         idxs = []
@@ -314,7 +322,7 @@ def gen_mcase(rng):
                 fd = gen_exponents(rng, sizes[k], dts[k])
             else:
                 fd = gen_data(rng, sizes[k], dts[k] if which == 0 else rng.choice(["i", "f", "c"]), mode)
-            fields.append(dict(fd, dom=k))
+            fields.append(dict(fd, dom=k, **({"p": 4} if lowp and (k + which) % 3 != 2 else {})))
             idxs.append(len(fields) - 1)
         mf.append({"keys": keys, "leaves": idxs})
     # c: same keys, one leaf on a different domain
@@ -373,6 +381,8 @@ def op_exact(case, op):
     name = op["op"]
     if name not in L.E_OPS:
         return False
+    if L.low_precision(case):
+        return False  # 4-byte dtypes: 24-bit mantissa, class T with 1e-5
     if name in ("integrate", "s_integrate", "total_volume", "scalar_weight", "weight"):
         rec = case["doms"][case["fields"][op["f"]]["dom"]]
         if not all(L.nice_recipe(r) for r in rec):
@@ -435,11 +445,31 @@ def valid_spaces(sp, n):
     return all(isinstance(i, int) and 0 <= i < n for i in t) and len(set(t)) == len(t)
 
 
-def _allclose(a, b):
+def _allclose(a, b, tol=1e-9):
     a, b = np.asarray(a), np.asarray(b)
     if a.shape != b.shape:
         return False
-    return bool(np.allclose(a, b, rtol=1e-9, atol=1e-9, equal_nan=True))
+    return bool(np.allclose(a, b, rtol=tol, atol=tol, equal_nan=True))
+
+
+# operations whose NumPy reference is the very same array operation on the same dtype: the result dtype must agree
+SAME_DTYPE_OPS = {"sum", "prod", "all", "any", "un", "bin", "bins", "scale", "clip", "unite", "flexible_addsub",
+                  "s_sum", "s_prod", "s_all", "s_any"}
+# volume operations keep the precision of floating input (float32 stays float32, complex64 stays complex64 / float32)
+# (mean/var/std over non-scalar volumes multiply by the NumPy scalar 1/total_volume and come out in double precision)
+KEEP_PRECISION_OPS = {"weight", "integrate"}
+
+
+def dtype_mismatch(name, res_dtype, ref_dtype, in_dtype):
+    if name in SAME_DTYPE_OPS:
+        return None if res_dtype == ref_dtype else f"dtype {res_dtype}, NumPy gives {ref_dtype}"
+    if name == "scale_same":   # scale(1) hands back the field itself
+        return None if res_dtype == in_dtype else f"dtype {res_dtype} for scale(1) of {in_dtype}"
+    if name in KEEP_PRECISION_OPS and in_dtype.kind in "fc":
+        want = 4 if in_dtype in (np.dtype(np.float32), np.dtype(np.complex64)) else 8
+        have = res_dtype.itemsize // (2 if res_dtype.kind == "c" else 1)
+        return None if (res_dtype.kind in "fc" and have == want) else f"dtype {res_dtype} for input dtype {in_dtype}"
+    return None
 
 
 def expected_numpy(built, op):
@@ -646,8 +676,11 @@ def check_op(built, op):
         if not isinstance(res, ift.MultiField) or list(res.keys()) != list(exp[1].keys()):
             return (f"{label}: result is not a MultiField over the same keys", dict(sig, kind="type"))
         for k, v in exp[1].items():
-            if not _allclose(res[k].val.asnumpy(), v):
+            if not _allclose(res[k].val.asnumpy(), v, 1e-5 if L.low_precision(built.case) else 1e-9):
                 return (f"{label}: leaf '{k}' differs from the key-wise array operation", dict(sig, kind="value"))
+            if name in ("mbin", "mbins", "mun", "mclip", "mflex") and res[k].val.asnumpy().dtype != np.asarray(v).dtype:
+                return (f"{label}: leaf '{k}' has dtype {res[k].val.asnumpy().dtype}, NumPy gives {np.asarray(v).dtype}",
+                        dict(sig, kind="dtype"))
             src = built.mfields[op["a"]] if k in built.mfields[op["a"]] else built.mfields[op["b"]]
             if res[k].domain is not src[k].domain:
                 return (f"{label}: leaf '{k}' changed its domain", dict(sig, kind="domain"))
@@ -667,10 +700,18 @@ def check_op(built, op):
         return None
     if np.max(np.abs(np.asarray(val, dtype=np.complex128)), initial=0.0) > 2.0 ** 50:
         return None
+    tol = 1e-5 if L.low_precision(built.case) else 1e-9
     try:
-        same = _allclose(got.reshape(np.asarray(val).shape) if got.size == np.asarray(val).size else got, val)
+        same = _allclose(got.reshape(np.asarray(val).shape) if got.size == np.asarray(val).size else got, val, tol)
     except Exception:  # noqa: BLE001 - a result that cannot even be compared with an array is a wrong result
         same = False
+    if same and not multi:
+        nm = name
+        if name == "scale" and L.py_scalar(op["c"]) == 1:
+            nm = "scale_same"
+        dm = dtype_mismatch(nm, np.asarray(got).dtype, np.asarray(val).dtype, built.arrays[op["f"]].dtype)
+        if dm is not None:
+            return (f"{label}: result has {dm}", dict(sig, kind="dtype"))
     if not same:
         return (f"{label} differs from the NumPy computation with the domain's volume factors",
                 dict(sig, kind="value", dtype=("m" if multi else built.case["fields"][op["f"]]["dt"])))
@@ -794,7 +835,7 @@ def run_cases(ctx, cases):
                 continue
             impl = L.run_impl(built, op)
             exact = op_exact(case, op)
-            ok = L.agree(impl, m, exact)
+            ok = L.agree(impl, m, exact, 1e-5 if L.low_precision(case) else L.TOL)
             ctx.stat("op:" + opname)
             ctx.stat("class:" + ("E" if exact else "T"))
             if "error" in m:
@@ -811,7 +852,7 @@ def run_cases(ctx, cases):
         for rcp in case["doms"][0]:
             ctx.stat("sub:" + rcp[0])
         for fd in case["fields"][:1]:
-            ctx.stat("dtype:" + fd["dt"])
+            ctx.stat("dtype:" + fd["dt"] + str(fd.get("p", 8)))
         if case.get("laws"):
             r = check_vdot_laws(built)
             if r is not None:
